@@ -164,7 +164,9 @@ def _run_job(job):
         strat = target.strategy(env, cfg)
 
         def body(case):
-            if time.time() > job["deadline"]:
+            if state["last_fail"] is None and time.time() > job["deadline"]:
+                # budget exhausted: explored less. (Never while shrinking a failure: a silently passing body would
+                # make Hypothesis report the failure as flaky.)
                 out["budget_hit"] = True
                 return
             try:
@@ -214,6 +216,13 @@ def _run_job(job):
             out["failure"] = dict(case=jsonable(case), msg=v.msg, details=jsonable(v.details))
         except HarnessError:
             raise
+        except hypothesis.errors.Flaky:
+            # the driver's 3x replay in fresh runners decides whether the last failing case is real
+            if state["last_fail"]:
+                case, v = state["last_fail"]
+                out["failure"] = dict(case=jsonable(case), msg=v.msg, details=jsonable(v.details))
+            else:
+                raise
         except hypothesis.errors.Unsatisfiable:
             out["unsupported"] += 1
     except Exception:
